@@ -471,7 +471,7 @@ func zzC14(e *zzEnv, rng *rand.Rand, n int, variant int) {
 		field := ""
 		data := []byte(fmt.Sprintf("attack-%d-%d", i, rng.Int63()))
 		sep := []string{"/", "/", "\\", "-", "..", "", "//"}[rng.Intn(7)]
-		switch rng.Intn(9) {
+		switch rng.Intn(10) {
 		case 0:
 			field = "data.name"
 			r = e.dataReq(src, key, sep, mk("n.dat", frag, where), "", "", data)
@@ -502,6 +502,14 @@ func zzC14(e *zzEnv, rng *rand.Rand, n int, variant int) {
 			field = "static.get"
 			paths := []string{"../" + e.vic + "/pub/note.txt", "..%2f" + e.vic + "/pub/note.txt", "%2e%2e/" + e.vic + "/pub/note.txt", "pub/../../" + e.vic + "/pub/note.txt", "../decoy-in-serve-root.txt", "../../decoy-inside-recv.txt", "../../../decoy.txt", "//etc/passwd", "pub//..//..//" + e.vic, frag, "pub/" + frag, ""}
 			r = &zzReq{Route: "static", Method: "GET", URL: "/static/" + paths[rng.Intn(len(paths))], Headers: map[string]string{"X-STS-SrcName": src}}
+		case 8:
+			// header names the attacker's own source, the query string another one (or the
+			// serve root): authorisation and directory selection must agree on one of them
+			field = "static.query-source"
+			qs := []string{e.vic, ".", "..", e.vic + "/pub", "./" + e.vic}[rng.Intn(5)]
+			pth := []string{"pub/note.txt", "", e.vic + "/pub/note.txt", "note.txt"}[rng.Intn(4)]
+			method := []string{"GET", "GET", "DELETE"}[rng.Intn(3)]
+			r = &zzReq{Route: "static", Method: method, URL: "/static/" + pth + "?source=" + qs, Headers: map[string]string{"X-STS-SrcName": src}}
 		default:
 			field = "static.delete"
 			paths := []string{"../" + e.vic + "/pub/note.txt", "..%2f" + e.vic + "/pub/note.txt", "pub/../../" + e.vic + "/pub/note.txt", "../decoy-in-serve-root.txt", "../../../decoy.txt", "pub/" + frag}
